@@ -92,6 +92,11 @@ def ob_unlock(cx):
     for removed, last_peek in fs.removed:
         cx.require(last_peek != "absent" and cx.truth(last_peek.nonce == env.OUR_NONCE),
                    "unlock removed the lock without having confirmed that it is ours")
+        if "taken_over_empty" in fs.env_log:
+            # only our own operations can leave held/ in place without its info file
+            cx.require(cx.truth(removed.nonce == env.OUR_NONCE),
+                       "unlock emptied held/ before moving it away: another locker took the lock through the empty "
+                       "directory and its lock was then moved away by our rename")
     if exc == "LockBroken":
         cx.cover("broken_detected")
     if exc is None and fs.removed:
